@@ -1,6 +1,6 @@
 (* Composition laws of the walker model (used by C01, C03, C08). *)
 From Coq Require Import Permutation.
-From DippyV Require Import Base.Str Base.Verdict Base.Sx Base.Tree Gen.Tables Model.RawScan Model.Walker Proofs.VerdictP.
+From DippyV Require Import Base.Str Base.Verdict Base.Sx Base.Tree Gen.Tables Model.RawScan Model.Walker Model.Cover Proofs.VerdictP.
 
 Section WalkerP.
   Variable simple : ctx -> list str -> verdict.
@@ -124,8 +124,6 @@ Section WalkerP.
   Qed.
 
   (* ---- list: the parts that are not operators, in sequence (cd tracking) ---- *)
-  Definition seq_parts (t : tree) : list tree :=
-    filter (fun p => negb (is_kind "operator" p)) (children "parts" t).
 
   Lemma filter_pairs (f : tree -> bool) (l : list tree) :
     filter (fun p : tree * res => f (fst p)) (map (fun t => (t, ev t)) l) = map (fun t => (t, ev t)) (filter f l).
@@ -215,6 +213,105 @@ Section WalkerP.
   Proof.
     intro p. subst p. rewrite ev_unfold. unfold build. cbn [r_pat].
     rewrite (opt_kr "body" c $"pattern" ss fs). reflexivity.
+  Qed.
+
+
+  Lemma walk_forarith c ss fs ks : let t := T $"for-arith" ss fs ks in
+    walk c t = combine (need c (child "body" t) ::
+                        rawscan c (attr_d "init" t) ++ rawscan c (attr_d "cond" t) ++ rawscan c (attr_d "incr" t) ++
+                        redirs_of c t).
+  Proof.
+    intro t. subst t. open_node.
+    rewrite (need_kr "body" c $"for-arith" ss fs), (redirs_kr c $"for-arith" ss fs). reflexivity.
+  Qed.
+
+  Lemma flat_map_pairs {B} (f : res -> list B) (l : list tree) :
+    flat_map (fun p : tree * res => f (snd p)) (map (fun t => (t, ev t)) l) = flat_map (fun t => f (ev t)) l.
+  Proof. rewrite flat_map_concat_map, map_map, <- flat_map_concat_map. reflexivity. Qed.
+
+  Lemma walk_condexpr c ss fs ks : let t := T $"cond-expr" ss fs ks in
+    walk c t = combine (flat_map (fun b => r_cond (ev b) c) (children "body" t) ++ redirs_of c t).
+  Proof.
+    intro t. subst t. open_node.
+    rewrite (redirs_kr c $"cond-expr" ss fs), (lbl_children "body" $"cond-expr" ss fs ks).
+    rewrite flat_map_concat_map, map_map, <- flat_map_concat_map. reflexivity.
+  Qed.
+  Lemma walk_arithcmd c ss fs ks : let t := T $"arith-cmd" ss fs ks in
+    walk c t = combine (flat_map (fun e => r_exp (ev e) c) (children "expression" t) ++ redirs_of c t).
+  Proof.
+    intro t. subst t. open_node.
+    rewrite (redirs_kr c $"arith-cmd" ss fs), (lbl_children "expression" $"arith-cmd" ss fs ks).
+    rewrite flat_map_concat_map, map_map, <- flat_map_concat_map. reflexivity.
+  Qed.
+
+
+  (* ---- the other walker functions, as functions of the node ---- *)
+  Lemma wp_unfold c b k ss fs ks : let t := T k ss fs ks in
+    r_wp (ev t) b c =
+    flat_map (fun p => r_exp (ev p) c) (children "parts" t) ++
+    (if b && negb (nonempty (children "parts" t)) then rawscan c (attr_d "value" t) else []).
+  Proof.
+    intro t. subst t. rewrite ev_unfold. unfold build. cbn [r_wp].
+    rewrite (lbl_children "parts" k ss fs ks).
+    rewrite flat_map_concat_map, map_map, <- flat_map_concat_map. cbn [snd].
+    destruct (children "parts" (T k ss fs ks)); reflexivity.
+  Qed.
+
+  Lemma exp_unfold c k ss fs ks : let t := T k ss fs ks in
+    r_exp (ev t) c =
+    if mem_str k SUBST_KINDS then [need c (child "command" t)]
+    else if str_eqb k $"word" then r_wp (ev t) false c
+    else flat_map (fun p => rawscan c (snd p)) ss ++ flat_map (fun p => r_exp (ev (snd p)) c) ks.
+  Proof.
+    intro t. subst t. rewrite (ev_unfold k). unfold build. cbn [r_exp r_wp].
+    destruct (mem_str k SUBST_KINDS); [rewrite (need_kr "command" c k ss fs); reflexivity|].
+    destruct (str_eqb k $"word"); [reflexivity|].
+    f_equal. unfold kr_of. rewrite flat_map_concat_map, map_map, <- flat_map_concat_map. reflexivity.
+  Qed.
+
+  Lemma cond_unfold c k ss fs ks : let t := T k ss fs ks in
+    r_cond (ev t) c =
+    if str_eqb k $"unary-test" then flat_map (fun w => r_wp (ev w) true c) (children "operand" t)
+    else if str_eqb k $"binary-test" then
+      flat_map (fun w => r_wp (ev w) true c) (children "left" t) ++ flat_map (fun w => r_wp (ev w) true c) (children "right" t)
+    else if str_eqb k $"cond-and" || str_eqb k $"cond-or" then
+      flat_map (fun w => r_cond (ev w) c) (children "left" t) ++ flat_map (fun w => r_cond (ev w) c) (children "right" t)
+    else if str_eqb k $"cond-not" then flat_map (fun w => r_cond (ev w) c) (children "operand" t)
+    else if str_eqb k $"cond-paren" then flat_map (fun w => r_cond (ev w) c) (children "inner" t)
+    else [].
+  Proof.
+    intro t. subst t. rewrite ev_unfold. unfold build. cbn [r_cond].
+    rewrite (lbl_children "operand" k ss fs ks), (lbl_children "left" k ss fs ks), (lbl_children "right" k ss fs ks),
+            (lbl_children "inner" k ss fs ks).
+    repeat (rewrite (flat_map_concat_map _ (map _ _)), map_map, <- flat_map_concat_map). reflexivity.
+  Qed.
+
+  Lemma redir_unfold c k ss fs ks : let t := T k ss fs ks in
+    r_redir (ev t) c =
+    if str_eqb k $"heredoc" then
+      match flag "quoted" t with Some false => rawscan c (attr_d "content" t) | _ => [] end
+    else
+      match child "target" t with Some w => r_wp (ev w) false c | None => [] end ++
+      (if snd c then [] else
+         match redirect_class (attr_d "op" t)
+                 (match child "target" t with Some w => attr_d "value" w | None => [] end)
+                 (match child "target" t with Some w => word_value w | None => [] end) with
+         | RSkip => []
+         | RCheck => [redirect_rule mredir (fst c)
+                        (match child "target" t with Some w => word_value w | None => [] end)]
+         end).
+  Proof.
+    intro t. subst t. rewrite ev_unfold. unfold build. cbn [r_redir].
+    destruct (str_eqb k $"heredoc"); [reflexivity|].
+    unfold one, child. rewrite (lbl_children "target" k ss fs ks).
+    destruct (children "target" (T k ss fs ks)); reflexivity.
+  Qed.
+
+  Lemma pat_unfold c k ss fs ks : let t := T k ss fs ks in
+    r_pat (ev t) c = rawscan c (attr_d "pattern" t) ++ optional c (child "body" t).
+  Proof.
+    intro t. subst t. rewrite ev_unfold. unfold build. cbn [r_pat].
+    rewrite (opt_kr "body" c k ss fs). reflexivity.
   Qed.
 
   (* ---- unknown node kinds are never approved ---- *)
